@@ -1,7 +1,7 @@
 ------------------------------- MODULE JForms -------------------------------
 (* Judge for C12: every public operation under the raw, the parsed and the    *)
 (* piecewise-parsed form of one schema.                                       *)
-EXTENDS Naturals, Integers, Sequences, SequencesExt, FiniteSets, TLC, JCommon, AvroCanon, AvroFile, AvroJson
+EXTENDS Naturals, Integers, Sequences, SequencesExt, FiniteSets, TLC, JCommon, AvroCanon, AvroFile, AvroJson, AvroResolve
 
 \* op = "forms": c.schema (monolithic raw), c.datum, c.forms << [form, sl [ok, bytes], slread [ok, v], file [ok, file, hs, inflate],
 \*   fileread [ok, recs], json [ok, docs], jsonread [ok, recs], validate [ok, v], canon [ok, text], gen [ok, values], identity] >>
@@ -32,6 +32,14 @@ JudgeForm(c, P, f) ==
              ELSE LET nd == NormJ(t, c.dropped, names, o) IN
                   IF ~nd.ok THEN Cl(tag("C12.json_defaults"), "unspec")
                   ELSE Tri(tag("C12.json_defaults"), f.jsondrop.ok /\ Len(f.jsondrop.recs) = 1 /\ VEqN(f.jsondrop.recs[1], nd.v)),
+             \* reading with a reader schema (derived by compatible evolution steps), writer and reader both in this form
+             IF "rschema" \notin DOMAIN c \/ "resolve" \notin DOMAIN f THEN Cl(tag("C12.resolve"), "skip")
+             ELSE LET R == Parse(c.rschema) IN
+                  IF ~R.ok \/ c.wbytes # enc.b THEN Cl(tag("C12.resolve"), "skip")
+                  ELSE LET x == Resolve(t, R.t, c.wbytes, names, R.st.names) IN
+                       IF x.st = "ok" THEN Tri(tag("C12.resolve"), f.resolve.ok /\ VEq(f.resolve.v, x.v) /\ f.resolve.pos = Len(c.wbytes))
+                       ELSE IF x.st = "raise" THEN Tri(tag("C12.resolve"), ~f.resolve.ok /\ \E i \in 1..Len(f.resolve.exc) : f.resolve.exc[i] = "SchemaResolutionError")
+                       ELSE Cl(tag("C12.resolve"), "unspec"),
              Tri(tag("C12.validate"), f.validate.ok /\ f.validate.v = [p |-> "bool", b |-> TRUE]),
              Tri(tag("C12.canon"), f.canon.ok /\ f.canon.text = CanonText(CanonTree(t))),
              \* data generation under a fixed state of the random source gives the same values under every form
